@@ -52,7 +52,15 @@ theorem processChallenge_no_panic (upper utf16 : Bytes → Bytes) (token user do
         cases hc : C08.parseChallenge inner with
         | panic => exact absurd hc (C08.challenge_parse_total inner)
         | err => simp
-        | ok c => simp [pure]
+        | ok c =>
+          have hm : ∀ x, C08.createAuthenticateMessage upper utf16 c.flags lm nt user domain workstation = x → x ≠ .panic := by
+            intro x hx
+            simp only [C08.createAuthenticateMessage] at hx
+            split at hx <;> (subst hx; simp)
+          cases hcm : C08.createAuthenticateMessage upper utf16 c.flags lm nt user domain workstation with
+          | panic => exact absurd rfl (hm _ hcm)
+          | err => simp [hcm]
+          | ok m => simp [hcm, pure]
 
 /-! ### C12: `DecodeUTF16LE`, `GPPPDecryptBase64` -/
 
